@@ -437,10 +437,19 @@ pub fn run(args: &Args) -> (Meta, Stats) {
     let seed = args.seed;
     let contexts = gen::fragment_contexts();
     let deadline = args.phase_deadline(0.6);
-    let mut st = par_run(nthreads(), |shard, _n, st| {
+    let sanit = args.tier == crate::Tier::Sanitizer;
+    let san_n = args.san_n(40);
+    let mut st = par_run(if sanit { 1 } else { nthreads() }, |shard, _n, st| {
         let mut rng = Rng::new(mix(seed ^ 0xC04, shard as u64));
         let mut k = 0u64;
-        while !expired(deadline) {
+        loop {
+            if sanit {
+                if k >= san_n {
+                    break;
+                }
+            } else if expired(deadline) {
+                break;
+            }
             k += 1;
             match k % 8 {
                 0 | 1 => check_tok(&mut rng, st),
@@ -468,7 +477,9 @@ pub fn run(args: &Args) -> (Meta, Stats) {
             }
         }
     });
-    run_children(args, &mut st);
+    if !sanit {
+        run_children(args, &mut st);
+    }
     let sites = ["html tokenizer run", "html tokenizer eof", "html tree builder", "xml tokenizer run", "xml tokenizer eof", "xml tree builder", "html char-ref eof", "xml char-ref eof"];
     let _ = sites;
     let mut m = super::meta(
@@ -479,13 +490,15 @@ pub fn run(args: &Args) -> (Meta, Stats) {
             "unwrap/expect sites are shown unreachable only on the inputs driven",
         ],
     );
-    m.require = vec![
+    if !sanit {
+        m.require = vec![
         ("html_document_runs".into(), 2000),
         ("html_fragment_runs".into(), 500),
         ("xml_runs".into(), 1000),
         ("tokenizer_only_runs".into(), 1000),
         ("deep_child_runs".into(), 30),
     ];
+    }
     (m, st)
 }
 
